@@ -522,6 +522,12 @@ where
         };
 
         let dir_entry = match dir_entry {
+            // the volume label has a name but is not a file
+            Ok(entry) if entry.attributes.is_volume() => Err(Error::NotFound),
+            x => x,
+        };
+
+        let dir_entry = match dir_entry {
             Ok(entry) => {
                 // we are opening an existing file
                 Some(entry)
@@ -696,6 +702,11 @@ where
         let dir_entry = match &data.open_volumes[volume_idx].volume_type {
             VolumeType::Fat(fat) => fat.find_directory_entry(&mut data.block_cache, dir_info, &sfn),
         }?;
+
+        if dir_entry.attributes.is_volume() {
+            // the volume label has a name but is not a file
+            return Err(Error::NotFound);
+        }
 
         if dir_entry.attributes.is_directory() {
             return Err(Error::DeleteDirAsFile);
@@ -1089,6 +1100,9 @@ where
         };
 
         match maybe_dir_entry {
+            Ok(entry) if entry.attributes.is_volume() => {
+                // only the volume label has this name: it is free
+            }
             Ok(entry) if entry.attributes.is_directory() => {
                 return Err(Error::DirAlreadyExists);
             }
